@@ -25,6 +25,9 @@ For every method (or StaticURLInfo method) that calls `<self|config>.introspecta
            `var is None` and truth tests are allowed), every non-constant key, every shape not understood.
            A non-empty list makes the theorems of Props/C20.lean fail — never guess.
 
+Also: the category headings of docs/narr/introspector.rst (`docCategories`, with a parse status), so that the agreement
+between the documented and the recorded category names is re-decided on every run.
+
 Also: whether `Configurator.include` and `Configurator.with_package` pass `introspection=self.introspection` to
 the configurator they create, whether `Configurator.action` drops the introspectables when `self.introspection`
 is false, and whether `execute_actions` registers the introspectables after (not before / not instead of) the
@@ -622,9 +625,48 @@ def flag_facts(src_root):
     return out
 
 
+def doc_categories(src_root):
+    """the category headings of the section "Pyramid Introspection Categories" of docs/narr/introspector.rst: a line
+    ``name`` at column 0 followed by a blank line and an indented body.  -> (status, [names]); status is not 'ok' when the
+    file, the section or its end cannot be found, or a heading has another shape (the obligations then fail)"""
+    import re
+    path = os.path.join(os.path.dirname(os.path.abspath(src_root)), 'docs', 'narr', 'introspector.rst')
+    try:
+        lines = open(path).read().split('\n')
+    except OSError:
+        return 'missing', []
+    start = [i for i, l in enumerate(lines[:-1]) if l.strip() == 'Pyramid Introspection Categories' and set(lines[i + 1].strip()) == {'-'}]
+    if len(start) != 1:
+        return 'no-section', []
+    body = lines[start[0] + 2:]
+    end = [i for i, l in enumerate(body[:-1]) if l and not l.startswith((' ', '`', '.')) and body[i + 1].strip() and set(body[i + 1].strip()) <= set('-=~^')
+           and len(body[i + 1].strip()) >= len(l.strip())]
+    if not end:
+        return 'no-end', []
+    body = body[:end[0]]
+    names, status = [], 'ok'
+    for i, l in enumerate(body):
+        if l.startswith('``'):
+            m = re.fullmatch(r'``([^`]+)``', l.rstrip())
+            nxt = body[i + 1] if i + 1 < len(body) else ''
+            if m and nxt.strip() == '':
+                names.append(m.group(1))
+            else:
+                status = 'odd-heading:' + l.strip()[:40]
+        elif l and not l.startswith(' ') and names:
+            # unindented prose between headings is not expected inside the list
+            status = 'odd-line:' + l.strip()[:40]
+    if not names:
+        status = 'empty'
+    if len(set(names)) != len(names):
+        status = 'duplicate-heading'
+    return status, names
+
+
 def generate(src_root):
     ds = find_directives(src_root)
     ff = flag_facts(src_root)
+    dstatus, dnames = doc_categories(src_root)
     L = ['import PyramidModel.Lemmas.IntrospectTable',
          '/-! GENERATED by extract/c20.py from src/pyramid/config/*.py, config/actions.py, registry.py — do not edit. -/',
          'namespace Pyr.Gen.C20',
@@ -634,6 +676,10 @@ def generate(src_root):
          'def directives : List GDirective := [',
          ',\n'.join(d.lean() for d in ds),
          ']',
+         '',
+         '/-- docs/narr/introspector.rst, section "Pyramid Introspection Categories": was it parsed, and its headings -/',
+         'def docStatus : String := %s' % lean_str(dstatus),
+         'def docCategories : List String := %s' % lean_strs(dnames),
          '',
          '/-- `self.__class__(…, introspection=…)` in `Configurator.include` -/',
          'def includeFlag : String := %s' % lean_str(ff['include']),
@@ -653,7 +699,8 @@ def generate(src_root):
     summary.update({'directives': len(ds), 'introspectables': sum(len(d.intros) for d in ds),
                     'keys': sum(len(d.keys) for d in ds), 'relations': sum(len(d.rels) for d in ds),
                     'actions': sum(len(d.acts) for d in ds), 'defs': sum(len(d.defs) for d in ds),
-                    'unknown': [d.name + ': ' + u for d in ds for u in d.unknown], 'flags': ff})
+                    'unknown': [d.name + ': ' + u for d in ds for u in d.unknown], 'flags': ff,
+                    'doc_status': dstatus, 'doc_categories': len(dnames)})
     return {'PyramidModel/Gen/C20.lean': '\n'.join(L)}
 
 
